@@ -1,6 +1,6 @@
 #!/usr/bin/env python3
-"""Writes rules/decisions.json (the decision table of the sync state machine, see rules/decisions.py) from /repo's current tree.
-Regenerate only after a deliberate, reviewed change of the engine's decision code."""
+"""Writes rules/decisions.json (the decision table: per function and action shape, the reach condition as a decision diagram over guard atoms - see
+rules/decisions.py and rules/reachcond.py) from /repo's current tree.  Regenerate only after a deliberate, reviewed change of the engine's decision code."""
 import json, os, sys
 HERE = os.path.dirname(os.path.dirname(os.path.abspath(__file__)))
 sys.path.insert(0, HERE)
@@ -8,4 +8,4 @@ from sa.ctx import Ctx                                   # noqa: E402
 from rules.decisions import build_table, table_path     # noqa: E402
 t = build_table(Ctx())
 json.dump(t, open(table_path(), "w"), indent=1, sort_keys=True)
-print(len(t), "site groups,", sum(len(v) for v in t.values()), "sites")
+print(len(t), "reach conditions,", sum(len(v["atoms"]) for v in t.values()), "atoms")
